@@ -60,3 +60,26 @@ func init() {
 		env.Close()
 	}
 }
+
+func init() {
+	// dbg-script <ptrace|unshare|container> <script>: run one probe script and print the result
+	helpers["dbg-script"] = func(args []string) {
+		switch args[0] {
+		case "ptrace":
+			r, out := runPtraceProbe(RunSpec{Script: args[1], Filter: tracingFilter(), Timeout: 20 * time.Second})
+			fmt.Println(r, out)
+		case "unshare":
+			r, out := runUnshareProbe(RunSpec{Script: args[1], Timeout: 20 * time.Second}, "", nil)
+			fmt.Println(r, out)
+		default:
+			env, err := newEnv(container.Builder{})
+			if err != nil {
+				fmt.Println(err)
+				return
+			}
+			r, out := env.runProbe(RunSpec{Script: args[1], Timeout: 20 * time.Second}, false)
+			fmt.Println(r, out)
+			env.Close()
+		}
+	}
+}
